@@ -14,6 +14,10 @@ theorem holds_never_broken (hc : HostC) (pc : PlugC) : compose Facts.interop Fac
   rw [holds_interop_matrix hc (allHost_complete hc) pc (allPlug_complete pc)]; unfold expected
   split <;> (try split) <;> (try split) <;> (try split) <;> simp
 
+/-- the 108 legacy-line cells, with the facts of the current source -/
+theorem holds_legacy_matrix : ∀ hc ∈ allHost, ∀ s ∈ [PSec.none, .static], composeLegacy Facts.interop Facts.handshake hc s = expected hc (legacyPlug s) := by
+  decide
+
 /-- at the current source: never a silently downgraded connection, whatever the plugin answers -/
 theorem holds_never_downgraded (hc : HostC) (pc : PlugC) : compose Facts.interop Facts.handshake hc pc ≠ .downgraded :=
   never_downgraded_good Facts.interop Facts.handshake facts_good.1 hc pc
